@@ -49,8 +49,9 @@ def is_collapsible(shapes: Sequence[Union[Shape, BlockShape]]) -> bool:
     """Determine whether a sequence of shapes can be collapsed.
 
     Return ``True`` if the a list of shapes represent arrays that can
-    be stacked, i.e., they are all the same."""
-    return all(s == shapes[0] for s in shapes)
+    be stacked, i.e., they are all the same (and not nested: stacking
+    :class:`BlockArray` shapes would give a twice-nested shape)."""
+    return not is_nested(shapes[0]) and all(s == shapes[0] for s in shapes)
 
 
 def is_blockable(shapes: Sequence[Union[Shape, BlockShape]]) -> TypeGuard[Union[Shape, BlockShape]]:
